@@ -15,7 +15,8 @@ EXPLANATION = (
     "from TlsServerConfig::client_auth, with_no_client_auth on a server builder is not called; client_auth/verifier select "
     "AllowAnyAuthenticatedClient on the `required` edge; (5) on the TLS-configured edge of each TCP listener the buffered stream wraps the "
     "result of TlsAcceptor::accept; (6) insecure_verifier / set_certificate_verifier / the example.com fallback are dominated by the true "
-    "edge of the insecure flag, and the crate has exactly one ServerCertVerifier impl.")
+    "edge of the insecure flag, and the crate has exactly one ServerCertVerifier impl."
+    ' cmd-verdict: the verdict cached for the external auth command is ExitStatus::success() or constant false; the cache key is the pair or a struct whose equality compares every field.')
 RULE_TEXT = "instances = dominance queries and call sites listed above"
 TRUSTED = ["rustls certificate validation", "the external auth command's semantics"]
 NOT_DECIDED = ["rustls' validation itself", "timing of cache expiry"]
